@@ -79,6 +79,12 @@ func (c11) Gen(seed uint64, run int, tier string) *Plan {
 				p.Actions = append(p.Actions, Action{Kind: "ladd", A: 0, B: b, C: c},
 					Action{Kind: "chat", A: 0, S: fmt.Sprintf("a-%d-%d", run, i)}, Action{Kind: "chat", A: 0, S: fmt.Sprintf("b-%d-%d", run, i)},
 					Action{Kind: "par", A: 2}, Action{Kind: "login", A: o}, Action{Kind: "lremove", A: 0, B: b, C: c})
+			} else if p.Policy.Name != "atomic" && r.Intn(3) == 0 {
+				// an operator logs in while an agent's console output is being distributed: the handler
+				// of the agent's request gets no CPU from some point on (C = 2: fault "stalled
+				// goroutine" at a drawn step of the group's first member) until the login is through
+				p.Actions = append(p.Actions, Action{Kind: "task", A: 0, B: d, D: r.Intn(50)}, Action{Kind: "par", A: 2, C: 2, D: r.Intn(500)},
+					Action{Kind: "output", B: d, D: r.Intn(1 << 20)}, Action{Kind: "login", A: o})
 			} else if p.Policy.Name != "atomic" {
 				p.Actions = append(p.Actions, Action{Kind: "par", A: 2 + r.Intn(3), C: []int{0, 0, 1}[r.Intn(3)]})
 			} else {
@@ -103,6 +109,7 @@ type c11Op struct {
 }
 
 type c11State struct {
+	lastRID map[*world.Demon]uint32 // request id of the task an agent was given last
 	w    *world.World
 	res  *Result
 	ops  map[int]*c11Op // by configured operator index
@@ -161,6 +168,13 @@ func (c11) Exec(p *Plan, dir string) *Result {
 					res.Probe("fault:stalled-goroutine")
 				}
 				st.inject(b)
+				if a.C == 2 && gi == 0 {
+					w.Sim.RunSteps(uint64(a.D))
+					stalled = w.Sim.StallRunnable()
+					res.Probe("fault:stalled-goroutine")
+					res.Probe("login-while-a-request-handler-is-stalled")
+					continue
+				}
 				w.Sim.RunSteps(uint64(w.Sim.SchedRand().Intn(60)))
 			}
 			if stalled != nil {
@@ -271,7 +285,27 @@ func (st *c11State) inject(a Action) {
 			st.taskN++
 			d := w.Demons[a.B%len(w.Demons)]
 			c.o.Task(d.NameID(), fmt.Sprintf("%08x", 0x0b000000+st.taskN), world.CmdSleep, "sleep", map[string]any{"Arguments": fmt.Sprintf("%d;0", a.D)})
+			if st.lastRID == nil {
+				st.lastRID = map[*world.Demon]uint32{}
+			}
+			st.lastRID[d] = uint32(0x0b000000 + st.taskN)
 		}
+	case "output":
+		// the agent checks in with output of the task it was given last (console output for every operator)
+		d := w.Demons[a.B%len(w.Demons)]
+		pk := d.Out
+		d.Out = nil
+		if rid, ok := st.lastRID[d]; ok {
+			for _, cb := range world.Callbacks {
+				if cb.Name == "output" {
+					var sent world.Sent
+					pk = append(pk, world.Pkg{Cmd: cb.Cmd, RID: rid, Body: cb.Build(simrt.NewRand(uint64(a.D)+1), &sent)})
+					st.res.Probe("agent-output-callbacks")
+				}
+			}
+		}
+		w.Send(world.AgentReq{Port: d.Port, URI: d.URI, Body: d.Frame(pk)})
+		st.res.Probe("checkins")
 	case "checkin":
 		d := w.Demons[a.B%len(w.Demons)]
 		pk := d.Out
@@ -467,6 +501,23 @@ func (st *c11State) checkReplay(idx int, c *c11Op) {
 			}
 			return
 		}
+	}
+	// 1b. nothing that was recorded after the operator connected (a live broadcast) is delivered
+	// before the last of the events that were retained when it connected: live events follow the replay
+	if len(c.snapshot) > 0 {
+		inSnap := map[string]bool{}
+		for _, k := range c.snapshotAll {
+			inSnap[k] = true
+		}
+		for i := 0; i < pos-1 && i < len(stream); i++ {
+			e := stream[i]
+			if e.BadJSON || e.Pkg.Head.Event == world.EvListener || e.Pkg.Head.Event == world.EvInit || inSnap[canon(e.Raw)] {
+				continue // (listener announcements are amended in place: not compared)
+			}
+			res.Violate("C11", "replay-order", "live-event-before-end-of-replay", fmt.Sprintf("operator %s: was sent %s (position %d of its stream) before the last of the %d events that were retained when it connected (position %d)", c.o.Name, short(canon(e.Raw), 140), i, len(c.snapshot), pos-1), w.Sim)
+			return
+		}
+		res.Probe("live-after-replay-checked")
 	}
 	// boundary between replay and live traffic: the last session event of the first session block
 	live := 0
